@@ -184,7 +184,9 @@ NOT_APPLICABLE = {
 PENDING = {
     "C14": "the join hash map is a hashbrown::HashTable plus a chain vector: measured with Kani 0.68 - three symbolic inserts through the public API did not finish in 900 s; the verbatim join_hash_map.rs "
            "against Vec-backed shims timed out at 1200 s / 8 GB with 4 build and 3 probe rows, and with 3 build / 2 probe rows over a 2-value hash domain the pagination loop was still unsolved after 12.5 min / 7 GB; "
-           "a one-step harness over shims would verify the shim of the hash table, not hashbrown, and was not built",
+           "the one-step variant (verbatim update_from_iter / get_matched_indices_with_limit_offset / traverse_chain over a fixed-capacity linear shim of the hash table, concrete build side, ONE page from a symbolic reachable offset) "
+           "was built and measured: a 2-row build side with 3 probe rows needed 883 s of CBMC (253 k SSA steps, without memory-safety checks; with them it ran out of memory), and 120 such harnesses are needed for build sides up to 4 rows - "
+           "out of reach, and it would verify the chain logic over a shim, not hashbrown",
     "C28": "the subject is data produced by executing physical operators (arrow executor, async streams) against the orderings / equivalence classes / partitionings they declare; there is no encodable unit short of a relational "
            "semantics for every ExecutionPlan plus the EquivalenceProperties closure (orderings over arbitrary PhysicalExprs incl. monotonic functions); engine T's plan encoder covers logical plans only and was not extended",
     "C40": "the caches are std HashMap (SipHash, RandomState) / DashMap keyed by object_store::Path with an LRU list of Arc<Mutex<node>> + Weak links (lru_queue.rs): hash maps and pointer-rich lists are beyond CBMC here "
